@@ -605,8 +605,16 @@ func (c *FCtx) callContract(st *State, con *Contract, fi *FuncInfo, fn *types.Fu
 			post.names["result"] = rv
 		}
 	}
+	quiet := false
+	if c.con != nil {
+		for _, q := range c.con.Quiet {
+			if q == con.Key {
+				quiet = true
+			}
+		}
+	}
 	for _, en := range con.Ensures {
-		if !en.visible(c.prop) {
+		if !en.visible(c.prop) || quiet {
 			continue
 		}
 		st.assume(post.evalBool(en.E))
